@@ -1,0 +1,26 @@
+"""
+Verification hook (add-only, disabled unless PHOTON_WEAVE_VERIF=1).
+
+``announce(kind, *subjects)`` is called immediately before every random draw
+of a measurement so that an external conformance harness can learn which
+subsystem (or which POVM) the next ``jax.random.choice`` call is sampling for.
+With the environment variable unset the function returns at once and has no
+effect whatsoever.
+"""
+
+import os
+from typing import Any, Callable, Optional
+
+_ENABLED: bool = os.environ.get("PHOTON_WEAVE_VERIF") == "1"
+_sink: Optional[Callable[[str, tuple], None]] = None
+
+
+def set_sink(sink: Optional[Callable[[str, tuple], None]]) -> None:
+    global _sink
+    _sink = sink
+
+
+def announce(kind: str, *subjects: Any) -> None:
+    if not _ENABLED or _sink is None:
+        return
+    _sink(kind, subjects)
